@@ -4,7 +4,6 @@ import (
 	"context"
 	"errors"
 	"fmt"
-	"math/rand/v2"
 	"slices"
 	"sort"
 	"strings"
@@ -12,7 +11,6 @@ import (
 	"time"
 
 	"github.com/NethermindEth/juno/blockchain/networks"
-	"github.com/NethermindEth/juno/db"
 	"github.com/NethermindEth/juno/db/memory"
 	"github.com/NethermindEth/juno/migration"
 	"github.com/NethermindEth/juno/migration/blocktransactions"
@@ -598,16 +596,14 @@ func logKinds(l []logEntry) []string {
 	return out
 }
 
-var _ db.KeyValueStore = (*memory.Database)(nil)
-var _ = rand.Int
 
 func TestC18(t *testing.T) {
 	r := lib.Start("C18", "fault_enumeration")
-	n := r.N(56, 2400)
+	n := r.N(56, 1000)
 	t0 := time.Now()
 	r.Cases(n*upgradeSections, 0, func(idx int) { upgradeCase(r, idx) })
 	t1 := time.Now()
-	nr := r.N(1600, 80000)
+	nr := r.N(1600, 40000)
 	r.Cases(nr, 0, func(idx int) { runnerLineage(r, idx) })
 	t2 := time.Now()
 	if !r.Skip(-1) {
